@@ -172,6 +172,16 @@ def write_evidence(ctx, explanation, rule_text, violations, extra=None, trusted=
 
 def run(prop, tier, seed, replay=None):
     mod = importlib.import_module("sa.props." + prop.lower())
+    wanted = None
+    if replay:
+        try:
+            with open(replay) as f:
+                rep = json.load(f)
+            wanted = {(o["rule"], o["instance"]) for o in rep.get("violations", [])}
+            print("replaying %d reported violation(s) of %s on the current tree" % (len(wanted), prop))
+        except (OSError, ValueError) as ex:
+            print("cannot read report %s: %s" % (replay, ex))
+            return 2
     ctx = Ctx(prop, tier, seed)
     known = load_known()
     try:
@@ -218,6 +228,12 @@ def run(prop, tier, seed, replay=None):
         else:
             new.append(o)
     rc = 0
+    if wanted is not None:
+        still = [o for o in new if (o["rule"], o["instance"]) in wanted]
+        gone = wanted - {(o["rule"], o["instance"]) for o in new}
+        for r_, i_ in sorted(gone):
+            print("  no longer reproduces: rule=%s instance=%s" % (r_, i_))
+        new = still
     if new:
         os.makedirs(REPORTS, exist_ok=True)
         rp = os.path.join(REPORTS, "%s-%s.json" % (prop, tier))
